@@ -1,10 +1,10 @@
 ------------------------------ MODULE Gen_Ext ------------------------------
 EXTENDS External
-CONSTANTS NClasses, Homes, Nla, ZeroK, MaxMarks, WithDeps
+CONSTANTS NClasses, Homes, Nla, ZeroK, MaxMarks, WithDeps, MaxDeps
 VARIABLE sc
 NoFault == [kind |-> NoneS, name |-> NoneS]
 ConstFaults(s) == {f \in Faults(s) : f.kind \in {NoneS, "constNoInit"}}
-Bases == UNION {UNION {{[classes |-> s.classes, nla |-> k, fault |-> f] : f \in (IF k = NoneS THEN ConstFaults(s) ELSE {NoFault})} : k \in Nla} : s \in Systems(NClasses, Homes, ZeroK)}
+Bases == UNION {UNION {{[classes |-> s.classes, nla |-> k, fault |-> f] : f \in (IF k = NoneS THEN ConstFaults(s) ELSE {NoFault})} : k \in Nla} : s \in SystemsD(NClasses, Homes, ZeroK, MaxDeps)}
 Init == sc \in UNION {{x \in {WithMarks(b, ms, 0) : ms \in MarkSets(b, MaxMarks, WithDeps)} : Admissible(x)} : b \in Bases}
 Next == UNCHANGED sc
 Spec == Init /\ [][Next]_sc
